@@ -250,3 +250,127 @@ def run(ctx):
     curve_s2c(ctx, ctx.generate('MC_Curve', 'MC_Curve_gen_forms.cfg' if q else 'MC_Curve_gen_forms_wide.cfg'), limit=3000 if q else None)
     curve_c2s(ctx, 3000 if q else 40000)
     ctx.exhaustive = False
+
+
+# ---------------------------------------------------------------------------------------------------
+# X03-b/c  df_roll_off
+# ---------------------------------------------------------------------------------------------------
+from harness import x_roll
+
+
+def _roll_key(call):
+    return json.dumps(call, sort_keys=True)
+
+
+def _roll_want(want):
+    """the expected outcome as printed by TLC, roll dates only where the law pins them"""
+    w = {'kind': want['kind'], 'loaded': list(want['loaded']), 'checked': list(want['checked'])}
+    if want['kind'] == 'ok':
+        pinned = sorted(want['pinned'])
+        w['data'] = {'rows': list(want['data']['rows']), 'cols': [list(c) for c in want['data']['cols']]}
+        w['rolls'] = [[i, want['rolls'][i - 1]] for i in pinned]
+    elif want['kind'] == 'exc':
+        w['cls'] = want['cls']
+    else:
+        w['args'] = list(want['args'])
+    return w
+
+
+def _roll_got(o, want):
+    out = o['out']
+    g = {'kind': out['kind'], 'loaded': o['loaded'], 'checked': o['checked']}
+    if out['kind'] == 'ok':
+        g['data'] = out['data']
+        pinned = sorted(want['pinned']) if want['kind'] == 'ok' else []
+        g['rolls'] = [[i, out['rolls'][i - 1]] for i in pinned]
+    elif out['kind'] == 'exc':
+        g['cls'] = out['cls']
+    else:
+        g['args'] = out['args']
+    return g
+
+
+def _roll_compare(o, want):
+    """plain == between the encoded observation and what TLC printed; the name of the first part that differs"""
+    if o['after']['data'] != o['data_before']:
+        return 'data_argument_changed'
+    if o['after']['chain'] != o['chain_before'] or o['after']['keys'] != o['keys_before']:
+        return 'chain_argument_changed'
+    w, g = _roll_want(want), _roll_got(o, want)
+    for part, clause in (('loaded', 'loaded'), ('checked', 'live_check'), ('kind', 'outcome_kind'), ('cls', 'exception_class'),
+                         ('args', 'do_if_no_n_arguments'), ('data', 'values'), ('rolls', 'roll_dates')):
+        if w.get(part) != g.get(part):
+            if part == 'data' and w.get('data') and g.get('data') and w['data']['rows'] != g['data']['rows']:
+                return 'rows'
+            return clause
+    return None
+
+
+def _roll_case(call, via, clause_detail=None):
+    c = {'op': 'df_roll_off', 'via': via, 'n': call['n'], 'with_data': bool(call['data']['cols']), 'last_on_cutoff': x_roll.last_on_cutoff(call),
+         'ifno': call['ifno'], 'call': call}
+    return c
+
+
+def _roll_replay_calls(chunk):
+    out = []
+    for k, case in chunk:
+        call = {f: v for f, v in case['call'].items() if f != 'live'}
+        o, _ = x_roll.observe(call, sp=k % 8)
+        out.append((k, _roll_compare(o, case['want']), o['out'], o['loaded'], o['checked']))
+    return out
+
+
+def roll_s2c_calls(ctx, cases, via='call'):
+    items = list(enumerate(cases))
+    res = pmap(_roll_replay_calls, items, chunk=100)
+    for k, bad, out, loaded, checked in res:
+        ctx.evals += 1; ctx.traces += 1
+        case = cases[k]
+        if bad:
+            ctx.violation(bad, _roll_case(case['call'], via), {'expected': _roll_want(case['want']), 'observed': out, 'loaded': loaded, 'checked': checked})
+        if case['want']['kind'] == 'ok' and len(case['want']['loaded']) >= 2:
+            ctx.note(('roll', _roll_key(case['call'])))
+        if k % 501 == 0:
+            ctx.sample({'roll_s2c_case': {'call': case['call'], 'want': _roll_want(case['want'])}})
+
+
+def _roll_replay_sessions(chunk):
+    """one history = the caller's session: every load step is replayed in order; what is handed to a step is what the
+    previous steps returned (checked by ==: the step's data / chain ARE the observed ones), the session ends at the
+    first step the code answers differently"""
+    out = []
+    for k, h in chunk:
+        state = None          # (data, rolls) as observed after the last load
+        verdict = None
+        nload = 0
+        for j, st in enumerate(h['hist']):
+            if st['act'] != 'load':
+                continue
+            call = {f: v for f, v in st['call'].items() if f != 'live'}
+            o, _ = x_roll.observe(call, sp=(k + j) % 8)
+            nload += 1
+            bad = _roll_compare(o, st['want'])
+            if bad:
+                verdict = (j, bad, call, st['want'], o['out'], o['loaded'], o['checked'])
+                break
+        out.append((k, nload, verdict))
+    return out
+
+
+def roll_s2c_sessions(ctx, hists):
+    items = list(enumerate(hists))
+    res = pmap(_roll_replay_sessions, items, chunk=25)
+    for k, nload, verdict in res:
+        ctx.evals += nload; ctx.traces += 1
+        if verdict:
+            j, bad, call, want, out, loaded, checked = verdict
+            case = _roll_case(call, 'session')
+            case['step'] = j
+            ctx.violation(bad, case, {'expected': _roll_want(want), 'observed': out, 'loaded': loaded, 'checked': checked,
+                                      'world': hists[k]['w'], 'steps': [{f: s[f] for f in s if f not in ('call', 'want')} for s in hists[k]['hist']]})
+        if nload >= 3:
+            ctx.note(('session', json.dumps([hists[k]['w'], hists[k]['n'], [[s.get('d'), s.get('keep'), s.get('t'), s.get('head')] for s in hists[k]['hist']]])))
+        if k % 101 == 0:
+            ctx.sample({'roll_session': {'world': hists[k]['w'], 'n': hists[k]['n'],
+                                         'steps': [{f: s[f] for f in s if f not in ('call', 'want')} for s in hists[k]['hist']]}})
